@@ -38,6 +38,9 @@ func MutateDefs(t *rapid.T, cfg *Cfg, old *definition.PipelinesDef, gen int) (*d
 		if len(names) > 1 {
 			kinds = append(kinds, "removePipeline")
 		}
+		if len(cfg.ReloadKinds) > 0 && len(names) > 0 {
+			kinds = cfg.ReloadKinds
+		}
 		if len(names) == 0 {
 			kinds = []string{"addPipeline"}
 		}
